@@ -450,6 +450,98 @@ func main() {
 			kv.WriteResult(*out, res)
 		}
 		fmt.Fprintf(stdout, "sigm: cases=%d nontrivial=%d disagreements=%d monitor=%v\n", res.Evaluations, res.DistinctNontrivial, res.DisagreementCount, res.MonitorHitCount)
+	case "alleg":
+		fs := flag.NewFlagSet("alleg", flag.ExitOnError)
+		driver := fs.String("driver", "", "path to olpdriver")
+		seed := fs.Uint64("seed", 1, "seed")
+		hist := fs.Int("histories", 10, "histories")
+		blocks := fs.Int("blocks", 20, "blocks per history")
+		maxtx := fs.Int("maxtxs", 6, "max txs per block")
+		out := fs.String("out", "", "result json")
+		replay := fs.String("replay", "", "replay one stored history")
+		fs.Parse(os.Args[2:])
+		stdout := apph.SilenceAppLogs()
+		if *replay != "" {
+			rc := apph.ReplayAlleg(*driver, *replay, stdout)
+			apph.Cleanup()
+			os.Exit(rc)
+		}
+		res, err := apph.RunAlleg(apph.AllegOptions{Driver: *driver, Seed: *seed, Histories: *hist, Blocks: *blocks, MaxTxs: *maxtx})
+		apph.Cleanup()
+		if err != nil {
+			fmt.Fprintln(stdout, "olh alleg:", err)
+			os.Exit(2)
+		}
+		if *out != "" {
+			kv.WriteResult(*out, res)
+		}
+		fmt.Fprintf(stdout, "alleg: cases=%d nontrivial=%d disagreements=%d monitor=%v counters=%v\n", res.Evaluations, res.DistinctNontrivial, res.DisagreementCount, res.MonitorHitCount, res.Counters)
+	case "gov":
+		fs := flag.NewFlagSet("gov", flag.ExitOnError)
+		driver := fs.String("driver", "", "path to olpdriver")
+		seed := fs.Uint64("seed", 1, "seed")
+		hist := fs.Int("histories", 10, "histories")
+		blocks := fs.Int("blocks", 20, "blocks per history")
+		maxtx := fs.Int("maxtxs", 6, "max txs per block")
+		out := fs.String("out", "", "result json")
+		replay := fs.String("replay", "", "re-execute the history recorded in a replay file")
+		fs.Parse(os.Args[2:])
+		stdout := apph.SilenceAppLogs()
+		res, err := apph.RunGov(apph.GovOptions{Driver: *driver, Seed: *seed, Histories: *hist, Blocks: *blocks, MaxTxs: *maxtx, Replay: *replay})
+		apph.Cleanup()
+		if err != nil {
+			fmt.Fprintln(stdout, "olh gov:", err)
+			os.Exit(2)
+		}
+		if *out != "" {
+			kv.WriteResult(*out, res)
+		}
+		fmt.Fprintf(stdout, "gov: cases=%d nontrivial=%d disagreements=%d monitor=%v counters=%v\n", res.Evaluations, res.DistinctNontrivial, res.DisagreementCount, res.MonitorHitCount, res.Counters)
+		if *replay != "" {
+			for _, h := range res.MonitorHits {
+				fmt.Fprintf(stdout, "  %s: %s\n", h.Signature, h.Detail)
+			}
+			for _, d := range res.Disagreements {
+				fmt.Fprintf(stdout, "  disagreement %s\n    impl  %s\n    model %s\n", d.Op, d.Impl, d.Model)
+			}
+			if len(res.MonitorHits) > 0 || res.DisagreementCount > 0 {
+				os.Exit(1)
+			}
+		}
+	case "elect":
+		fs := flag.NewFlagSet("elect", flag.ExitOnError)
+		driver := fs.String("driver", "", "path to olpdriver")
+		seed := fs.Uint64("seed", 1, "seed")
+		hist := fs.Int("histories", 10, "generated histories (the scripted ones always run)")
+		blocks := fs.Int("blocks", 20, "blocks per history")
+		maxtx := fs.Int("maxtxs", 4, "max txs per block")
+		heapc := fs.Int("heap", 300, "random heap cases (the exhaustive small ones always run)")
+		out := fs.String("out", "", "result json")
+		replay := fs.String("replay", "", "replay one history file")
+		corpus := fs.String("corpus", "", "directory of *.replay histories run first")
+		fs.Parse(os.Args[2:])
+		stdout := apph.SilenceAppLogs()
+		res, err := apph.RunElect(apph.ElectOptions{Corpus: *corpus, Driver: *driver, Seed: *seed, Histories: *hist, Blocks: *blocks, MaxTxs: *maxtx, HeapCases: *heapc, Replay: *replay})
+		apph.Cleanup()
+		if err != nil {
+			fmt.Fprintln(stdout, "olh elect:", err)
+			os.Exit(2)
+		}
+		if *out != "" {
+			kv.WriteResult(*out, res)
+		}
+		fmt.Fprintf(stdout, "elect: cases=%d nontrivial=%d disagreements=%d monitor=%v counters=%v\n", res.Evaluations, res.DistinctNontrivial, res.DisagreementCount, res.MonitorHitCount, res.Counters)
+		if *replay != "" {
+			for _, h := range res.MonitorHits {
+				fmt.Fprintf(stdout, "  monitor %s: %s\n", h.Signature, h.Detail)
+			}
+			for _, d := range res.Disagreements {
+				fmt.Fprintf(stdout, "  disagreement %s\n    op    %s\n    impl  %s\n    model %s\n", d.Kind, d.Op, d.Impl, d.Model)
+			}
+			if len(res.MonitorHits) > 0 || res.DisagreementCount > 0 {
+				os.Exit(1)
+			}
+		}
 	default:
 		fmt.Fprintln(os.Stderr, "unknown engine", os.Args[1])
 		os.Exit(2)
